@@ -407,10 +407,10 @@ def run(ctx):
                                   "so the theorems or the mirror have lost their teeth")
     npairs = len(pairs)
     if ctx.quick:
-        # quick tier: every second pair (seeded offset) of the big generator space is replayed; pairs of a document
+        # quick tier: every third pair (seeded offset) of the big generator space is replayed; pairs of a document
         # with itself and the curated / integer-key spaces are all replayed; the thorough tier replays everything
-        keep = ctx.seed % 2
-        pairs = [p for k, p in enumerate(pairs) if k % 2 == keep or p[0] == p[1] or len(p[0]) > 4
+        keep = ctx.seed % 3
+        pairs = [p for k, p in enumerate(pairs) if k % 3 == keep or p[0] == p[1] or len(p[0]) > 4
                  or any(n[0] == "map" and any(kt != "str" or kv in ("0", "n", "v") for kt, kv in n[4]) for n in p[0] + p[1])
                  or any(n[0] == "s" and n[1] == "str" and n[2] == "1" for n in p[0] + p[1])]
     items = [(l, r, ms, variants_for(l, r, ctx.seed, ctx.quick)) for l, r, ms in pairs]
@@ -427,7 +427,7 @@ def run(ctx):
             ctx.violation(sig, desc, rp if seen[sig] <= 3 else None)      # every case counted; replay data for the first few
     t2 = time.time()
     rstats = collections.Counter()
-    local = random_tier(ctx, 200 if ctx.quick else 2000, rstats)
+    local = random_tier(ctx, 150 if ctx.quick else 2000, rstats)
     selftest = rstats.pop("binding_selftest")
     ctx.coverage["phase_s"] = {"tlc_models": round(t1 - t0, 1), "replay": round(t2 - t1, 1), "random_and_trace_validation": round(time.time() - t2, 1)}
     ctx.informational = tot["informational"] + rstats["informational"] + tot["outside_domain"] + rstats["outside_domain"]
@@ -439,7 +439,7 @@ def run(ctx):
                 "non-trivial = the real report has at least one entry",
         "pairs": len(pairs), "pairs_enumerated_by_tlc": npairs, "exhaustive": not ctx.quick,
         "exhaustive_note": "TLC enumerates and judges every pair in both tiers; the real Differ replays all of them in the thorough tier, "
-                           "in the quick tier every second pair of MC_Diff_q plus all identical pairs and all of MC_Diff_qr / MC_Diff_qi",
+                           "in the quick tier every third pair of MC_Diff_q plus all identical pairs and all of MC_Diff_qr / MC_Diff_qi",
         "traces_validated_against_impl": tot["evaluations"] + rstats["traces_validated"],
         "model_predicted_failures": {c: tot["predicted_" + c] for c in CLAUSES + ("crash",)},
         "mirrored_theorems_counterexample": mir["violated"] == "MirroredTheorems",
